@@ -643,46 +643,30 @@ func (o *FilterOptimizer) intersectionRange(l, r *ScanType) *ScanType {
 		return l
 	}
 
+	// The intersection runs from the higher start to the lower end; an
+	// open side (nil) does not constrain.
 	var (
-		nstart []byte = nil
-		nend   []byte = nil
+		nstart []byte = lstart
+		nend   []byte = lend
 	)
-
-	// | ^LS,RS | LE,RE$ |
-	// just use full scan instead
-	if lstart == nil && rstart == nil && lend == nil && rend == nil {
-		return &ScanType{FULL, nil}
+	if lstart == nil || (rstart != nil && bytes.Compare(rstart, lstart) > 0) {
+		nstart = rstart
 	}
-
-	if inRange(lstart, lend, rstart, false) && !inRange(lstart, lend, rend, true) {
-		// | LS | RS | LE | RE |
-		nstart = rstart
-		nend = lend
-	} else if inRange(rstart, rend, lstart, false) && !inRange(rstart, rend, lend, true) {
-		// | RS | LS | RE | LE |
-		nstart = lstart
+	if lend == nil || (rend != nil && bytes.Compare(rend, lend) < 0) {
 		nend = rend
-	} else if inRange(lstart, lend, rstart, false) && inRange(lstart, lend, rend, true) {
-		// | LS | RS | RE | LE |
-		nstart = rstart
-		nend = rend
-	} else if inRange(rstart, rend, lstart, false) && inRange(rstart, rend, lend, true) {
-		// | RS | LS | LE | RE |
-		nstart = lstart
-		nend = lend
-	} else if !inRange(lstart, lend, rstart, false) && !inRange(lstart, lend, rend, true) {
-		// | LS | LE | RS | RE |
-		// | RS | RE | LS | LE |
-		// No result just return EMPTY
-		return &ScanType{EMPTY, nil}
 	}
 
 	if nstart == nil && nend == nil {
 		return &ScanType{FULL, nil}
 	}
 
+	// Ranges do not overlap, no result just return EMPTY
+	if nstart != nil && nend != nil && bytes.Compare(nstart, nend) > 0 {
+		return &ScanType{EMPTY, nil}
+	}
+
 	// start == end just use MGET
-	if bytes.Compare(nstart, nend) == 0 {
+	if nstart != nil && nend != nil && bytes.Compare(nstart, nend) == 0 {
 		return &ScanType{MGET, [][]byte{nstart}}
 	}
 
@@ -732,7 +716,7 @@ func (o *FilterOptimizer) unionRange(l, r *ScanType) *ScanType {
 	}
 
 	// start == end just use MGET scan
-	if bytes.Compare(nstart, nend) == 0 {
+	if nstart != nil && nend != nil && bytes.Compare(nstart, nend) == 0 {
 		return &ScanType{MGET, [][]byte{nstart}}
 	}
 	return &ScanType{RANGE, [][]byte{nstart, nend}}
